@@ -100,6 +100,20 @@ Section Oracles.
     pose proof (find_some _ _ Er) as [Hin Hav]. repeat split; auto.
   Qed.
 
+  (** when every available rule of the chain carries the Master flag (the invariant the RuleManager
+      flows maintain), the rule the proof pool selects IS the master rule *)
+  Theorem selected_is_master st ib p dec :
+    fst (origin ib) = ps_bxh st ->
+    (forall r, In r (ps_rules st (snd (origin ib))) -> r_available r = true -> r_master r = true) ->
+    verify st ib (PdBytes p dec) = VOk ->
+    exists app r, ps_chains st (snd (origin ib)) = Some app /\ In r (ps_rules st (snd (origin ib))) /\
+                  r_master r = true /\
+                  rule_validate (r_addr r) (snd (origin ib)) p (ib_id ib) (a_trust app) = Some true.
+  Proof.
+    intros Hb Hwf Hv. destruct (master_rule_current st ib p dec Hb Hv) as [_ [app [r [Ha [_ [Hav [Hin Hr]]]]]]].
+    exists app, r. repeat split; auto.
+  Qed.
+
   (** the verdict depends on the state only through the records of the origin chain *)
   Theorem verify_depends_on_current st st' ib pd :
     ps_bxh st = ps_bxh st' ->
@@ -193,7 +207,7 @@ Definition relay_app : appchain := {| a_trust := 0; a_validators := Some [10; 11
 Definition st_ex : pstate :=
   {| ps_bxh := 1356;
      ps_chains := fun c => if c =? 1357 then Some relay_app else if c =? 50 then Some {| a_trust := 0; a_validators := None |} else None;
-     ps_rules := fun c => if c =? 50 then [{| r_addr := 2; r_available := false |}; {| r_addr := 4; r_available := true |}] else [] |}.
+     ps_rules := fun c => if c =? 50 then [{| r_addr := 2; r_available := false; r_master := false |}; {| r_addr := 4; r_available := true; r_master := true |}] else [] |}.
 Definition ib_remote : ibtp :=
   {| ib_id := 5; ib_from_bxh := 1357; ib_from_chain := 60; ib_to_bxh := 1356; ib_to_chain := 50; ib_is_req := true; ib_proofhash := 900 |}.
 Definition ib_local : ibtp :=
